@@ -69,6 +69,9 @@ def gen_descs(g, tier):
                                         u=C.gen_measure(g, Ru, D, diag=(g.randint(0, 3) == 0)), f=C.gen_factor(g, kind, Rf, D), xs=g.mat(3, D)))
         out.append(dict(scn="fproduct", f=C.gen_factor(g, kind, g.randint(1, 3), g.randint(1, 3)), xs=None))
         out[-1]["xs"] = g.mat(3, out[-1]["f"]["D"])
+    # diagonal densities in high dimension (determinant outside the float range)
+    for Dh in ((40,) if q else (40, 45, 50)):
+        out.append(lin.gen_scn(g, "ctor", R=1, D=Dh, diag=True, highdim=Dh))
     # diagonal measures and densities
     for _ in range(3 if q else 40):
         R, D = g.randint(1, 3), g.randint(1, 4)
